@@ -56,18 +56,22 @@ theorem destid_stable_init (idx : Nat) : RibIds.ShardOk { idx := idx } := RibIds
 /-- insertion keeps the table consistent, so a new prefix gets an id no other prefix holds (lowest
     free), and every prefix already present keeps its id -/
 theorem destid_stable_insert (s : Shard) (h : RibIds.ShardOk s) (hroom : s.used.length + 1 < 16777216)
-    (net : Net) (srcIdx : Nat) (src : Source) (rpid : Nat) (nh : Option Nh) (attrs : Attrs) (aid : Nat) :
-    RibIds.ShardOk (s.insert net srcIdx src rpid nh attrs aid).1 ∧
-    (∀ d ∈ s.dests, ∃ d' ∈ (s.insert net srcIdx src rpid nh attrs aid).1.dests, d'.net = d.net ∧ d'.id = d.id) :=
-  RibIds.insert_ok s h hroom net srcIdx src rpid nh attrs aid
+    (net : Net) (srcIdx : Nat) (src : Source) (rpid : Nat) (nh : Option Nh) (attrs : Attrs) (aid : Nat)
+    (filtered nhInvalid : Bool) :
+    RibIds.ShardOk (s.insert net srcIdx src rpid nh attrs aid filtered nhInvalid).1 ∧
+    (∀ d ∈ s.dests, ∃ d' ∈ (s.insert net srcIdx src rpid nh attrs aid filtered nhInvalid).1.dests,
+       d'.net = d.net ∧ d'.id = d.id) :=
+  RibIds.insert_ok s h hroom net srcIdx src rpid nh attrs aid filtered nhInvalid
 
 /-- a withdrawal keeps the table consistent and touches no other prefix; the prefix keeps its id, or
-    the id is released and the emitted change names that id and carries no paths -/
+    the id is released and the emitted change names that id and carries no paths (no change at all
+    when the last path, the one withdrawn, was hidden by the import policy) -/
 theorem destid_stable_remove (s : Shard) (h : RibIds.ShardOk s) (net : Net) (src : Source) (rpid : Nat) :
     RibIds.ShardOk (s.remove net src rpid).1 ∧
     (∀ d ∈ s.dests, d.net ≠ net → d ∈ (s.remove net src rpid).1.dests) ∧
     (∀ d ∈ s.dests, d.net = net →
        (∃ d' ∈ (s.remove net src rpid).1.dests, d'.net = net ∧ d'.id = d.id) ∨
+       (s.remove net src rpid).2 = none ∨
        (∃ ch, (s.remove net src rpid).2 = some ch ∧ ch.net = net ∧ ch.destId = d.id ∧ ch.paths = [])) :=
   RibIds.remove_ok s h net src rpid
 
